@@ -1083,6 +1083,8 @@ class Evaluator:
             known = self.path.variant.get(v.t)
             if known in ("Some", "None"):
                 fam = ("Some", "None")
+            elif re.match(r"^(&(mut )?)*(core|std)::option::Option<", self.types.get(v.t, "")):
+                fam = ("Some", "None")
             elif self._try_is_option(n):
                 fam = ("Some", "None")
             v = self.force(v, fam)
@@ -1102,7 +1104,8 @@ class Evaluator:
     def _try_is_option(self, n):
         sc = n["scrut"]
         targs = sc.get("targs") or []
-        return any(t.endswith("::Option") or t == "core::option::Option" for t in targs[:1])
+        a0 = sc.get("a0ty") or ""
+        return a0.endswith("option::Option") or any(t.endswith("::Option") or t == "core::option::Option" for t in targs[:1])
 
     def ev_for(self, n, env, depth):
         sc = n["scrut"]
@@ -1285,6 +1288,8 @@ class Evaluator:
         # output value are what the consumer eventually observes
         args = [self.run_future(a, 0) if isinstance(a, Clo) and (a.node.get("ckind") or "").startswith("Coroutine") else a for a in args]
         r = Sym(("call", fn, tuple(term(a) for a in args)))
+        if node.get("rty") and fn in (node.get("fn"), node.get("resolved")) and "::" in node["rty"] and not re.search(r"\bimpl\b|\{|\bdyn\b", node["rty"]):
+            self.types.setdefault(r.t, node["rty"])      # the compiler's type of the call expression (variant domains, Option vs Result)
         self.path.events.append(Event("call", fn, list(args), r, node.get("sp"), name=name))
         return r
 
